@@ -723,13 +723,14 @@ func min(a, b int) int {
 // replayCase re-runs one recorded case (in a worker subprocess, like the original run).
 func replayCase(r *vk.Run, reg *registry, roots []root) {
 	var rp struct {
-		Phase   string `json:"phase"`
-		Type    string `json:"type"`
-		Entry   string `json:"entry"`
-		Input   string `json:"input"`
-		Choices []int  `json:"choices"`
-		OvIdx   int    `json:"ov_idx"`
-		OvLen   int    `json:"ov_len"`
+		Phase   string     `json:"phase"`
+		Type    string     `json:"type"`
+		Entry   string     `json:"entry"`
+		Input   string     `json:"input"`
+		Choices []int      `json:"choices"`
+		OvIdx   int        `json:"ov_idx"`
+		OvLen   int        `json:"ov_len"`
+		Reader  *chunkSpec `json:"reader"`
 	}
 	r.LoadReplay(&rp)
 	dir := fmt.Sprintf("/dev/shm/C11-%d", os.Getpid())
@@ -740,6 +741,9 @@ func replayCase(r *vk.Run, reg *registry, roots []root) {
 	u := unit{Kind: "replay-hostile", TypeName: rp.Type, Entry: rp.Entry, InputHex: rp.Input}
 	if rp.Phase == "round-trip" {
 		u = unit{Kind: "replay-rt", TypeName: rp.Type, Choices: rp.Choices, OvIdx: rp.OvIdx, OvLen: rp.OvLen}
+	}
+	if rp.Phase == "chunked-stream" {
+		u = unit{Kind: "replay-chunk", TypeName: rp.Type, Entry: rp.Entry, InputHex: rp.Input, Reader: rp.Reader}
 	}
 	if rp.Phase == "map-order" {
 		u = unit{Kind: "maporder"}
